@@ -13,7 +13,8 @@
             VIOL C11  what the statement constrains: the list shows exactly the non-ignored entries (partial
                       upload under its final name); every listed complete file / folder answers get-info under its
                       listed name; list / get-info / download reply / disk agree on size and type for complete
-                      fork-less files; forks travel or vanish; new-folder never replaces; well-formed requests
+                      fork-less files; forks travel or vanish, and stay with a file that stays (forks-lost);
+                      new-folder never replaces; well-formed requests
                       change the tree exactly as Files!Do (D = {}) says
             DRIFT     any other disagreement between model and code (counts, fork totals, odd requests)
             (a folder whose list request gets no reply at all is a "listing" finding; cause LOOP = the folder holds
@@ -163,10 +164,12 @@ StepEv ==
       wf == WellFormed(e, T0, rootp)
       nf == NewFolderNeverReplacesObs(e, T0, T1)
       ft == ForksTravelObs(e, T0, T1, rootp)
+      fs == ForksStayObs(e, T0, T1, rootp)
       opF == (IF ~nf THEN {[cls |-> "newfolder-replaced"]} ELSE {})
+             \cup (IF ~fs THEN {[cls |-> "forks-lost", lost |-> Diff(T0, T1, rootp)]} ELSE {})
              \cup (IF ~ft THEN {[cls |-> "forks-left-behind", before |-> Diff(T1, T0, rootp)]} ELSE {})
-             \cup (IF nf /\ ft /\ wf /\ ~okSpec THEN {[cls |-> "op-not-as-requested", observed |-> Diff(T0, T1, rootp), requested |-> Diff(T0, spec, rootp)]} ELSE {})
-             \cup (IF nf /\ ft /\ ~wf /\ ~okAny THEN {[cls |-> "drift-op", observed |-> Diff(T0, T1, rootp), model |-> Diff(T0, spec, rootp)]} ELSE {})
+             \cup (IF nf /\ ft /\ fs /\ wf /\ ~okSpec THEN {[cls |-> "op-not-as-requested", observed |-> Diff(T0, T1, rootp), requested |-> Diff(T0, spec, rootp)]} ELSE {})
+             \cup (IF nf /\ ft /\ fs /\ ~wf /\ ~okAny THEN {[cls |-> "drift-op", observed |-> Diff(T0, T1, rootp), model |-> Diff(T0, spec, rootp)]} ELSE {})
       F == opF \cup ViewFindings(e, T1, ignore, rootp)
   IN /\ e.op = "step"
      /\ ReportFindings(e, F)
